@@ -410,8 +410,16 @@ fn judge_writer(t: &mut Tally, v: &V, what: &str) {
 					let (w, _) = FailAtWriter::new(k);
 					let (ok, err, panic) = if reader { run_reader_to(ChunkReader::new(&bytes, 0), Some(src), to, w) } else { run_slice_to(&bytes, Some(src), to, w) };
 					t.evaluations += 1;
-					if panic.is_some() || ok {
-						continue; // C12 judges verdict/panic; here only the text
+					if panic.is_some() {
+						continue; // C04/C12 judge panics
+					}
+					if ok {
+						// no error at all: the cause of the failed write was certainly not reported
+						t.count(&format!("writer:{}:{}", to.name(), element_class(&clean.out, k, to)));
+						let case = json!({"kind": "writer", "src": src.name(), "to": to.name(), "bytes_hex": hex(&bytes), "text": show(&bytes), "k": k, "reader": reader, "value": v.dump()});
+						t.bad(format!("write-failure-not-reported:{}", to.name()), case,
+							format!("{what}: {} ({}) -> {} with the writer failing at byte {k} of {} [{}]: the translation returned Ok", show(&bytes), src.name(), to.name(), show(&clean.out), if reader { "reader" } else { "slice" }));
+						continue;
 					}
 					t.count(&format!("writer:{}:{}", to.name(), element_class(&clean.out, k, to)));
 					t.nontrivial(fnv(&[&bytes, to.name().as_bytes(), &k.to_le_bytes()]));
